@@ -111,7 +111,7 @@ def c15(tier, seed):
 
 
 def c06(tier, seed):
-    hows = ("new", "newB", "from", "box", "boxB", "unique", "uniqueB")
+    hows = ("new", "newB", "from", "default", "box", "boxB", "unique", "uniqueB")
     return [stage(CT.ctor_stage, "C06", tier, "ctor_honest_" + tier[0], ["fhi", "thin", "collect", "vec", "slice", "str"], False),
             sized("C06", tier, "sized_ctor_" + tier[0], BASE + ["Shareable", "IntoInner", "TryUnwrap"], 3 if tier == "quick" else 4, 3, 1, hows=hows),
             lay("C06", tier, "layout_matrix_" + tier[0])]
